@@ -185,7 +185,7 @@ func (r *renderer) render(v Val, t types.Type, st *State) string {
 		}
 		return ts + "{" + strings.Join(es, ", ") + "}"
 	case OpaqueV:
-		return "nil"
+		return "(" + ts + ")(nil)"
 	}
 	return "nil /* unsupported " + ts + " */"
 }
@@ -312,7 +312,8 @@ func replayModel(ctx *Context, r *OblResult, outDir string) (confirmed bool, log
 			bound := false
 			for i, fp := range fn.Params {
 				if fp.Name() == p.Name() {
-					cargs = append(cargs, "old_"+names[i])
+					// parameters keep their entry values, but what they point to is seen in the state after the call
+					cargs = append(cargs, names[i])
 					bound = true
 				}
 			}
@@ -378,7 +379,20 @@ func replayModel(ctx *Context, r *OblResult, outDir string) (confirmed bool, log
 	// when the real code, run on the model's inputs, panics or violates one of the function's postconditions
 	body := pre
 	if r.ob.Kind != "ensures" {
-		body += "\tdefer func() {\n\t\tif x := recover(); x != nil {\n\t\t\tt.Fatalf(\"REPLAY-CONFIRMED: real code panics: %v\", x)\n\t\t}\n\t}()\n"
+		// only a panic of the kind the obligation speaks about confirms it (interface-typed inputs are passed as nil
+		// in a replay, so a nil dereference of such an input says nothing about the code)
+		want := "\\x00never"
+		switch {
+		case r.ob.Kind == "bounds":
+			want = "out of range"
+		case r.ob.Kind == "nopanic" && strings.Contains(r.ob.Label, "div-by-zero"):
+			want = "divide by zero"
+		case r.ob.Kind == "nopanic" && strings.Contains(r.ob.Label, "explicit-panic"):
+			want = ""
+		}
+		body += "\tdefer func() {\n\t\tif x := recover(); x != nil {\n\t\t\tmsg := fmt.Sprint(x)\n\t\t\tif strings.Contains(msg, \"" + want + "\") && !(\"" + want + "\" == \"\" && strings.Contains(msg, \"nil pointer\")) {\n\t\t\t\tt.Fatalf(\"REPLAY-CONFIRMED: real code panics: %v\", x)\n\t\t\t}\n\t\t\tt.Logf(\"REPLAY-NOT-CONFIRMED (unrelated panic: %v)\", x)\n\t\t}\n\t}()\n"
+		rd.imps["fmt"] = "fmt"
+		rd.imps["strings"] = "strings"
 	}
 	body += "\t" + assign + call + "\n"
 	for _, rn := range resNames {
